@@ -555,3 +555,17 @@ for _p in ("C01", "C02", "C03", "C04", "C05", "C06", "C07", "C10", "C11"):
 
 REGISTRY["C18"]["theorems"] += T("Proofs.C18b", "BLDFM.C18", ["coords_meshgrid3", "coords_meshgrid2", "coords_vectors", "stored_coords", "coords_lossless_3d",
                                                               "coords_lossless_2d", "coords_indices", "dims", "slots_filled"])
+
+_C20D = T("Proofs.C20d", "BLDFM.C20", ["flFold_error", "flSum_error", "flSum_order", "pow_sub_one_le", "flSum_error_explicit", "abs_sum_le_absSum"])
+REGISTRY["C20"]["theorems"] += _C20D
+REGISTRY["C03"]["theorems"] += _C20D
+REGISTRY["C20"]["partial_clauses"] = [c if not c.startswith("float summation order") else
+    "float summation order: a THEOREM in the standard rounding model (every addition returns fl(a+b) with |fl x - x| <= eps |x|): a left-to-right sum of n terms "
+    "differs from the exact sum by at most ((1+eps)^n - 1) * sum|x_i| (flSum_error), two summation orders of the same terms by at most twice that (flSum_order), and "
+    "(1+eps)^n - 1 <= 2 n eps for n eps <= 1/2 (pow_sub_one_le); that numpy's additions satisfy the model with eps = 2^-53 (2^-24) is IEEE 754, trusted"
+    for c in REGISTRY["C20"]["partial_clauses"]]
+
+REGISTRY["C02"]["theorems"] += T("Proofs.C02e", "BLDFM.C02", ["flProducts_close", "flDot_error", "flDot_error_explicit"]) + _C20D
+REGISTRY["C02"]["partial_clauses"] = list(REGISTRY["C02"]["partial_clauses"]) + [
+    "the sums sum(q*footprint), sum(q*G) as evaluated in floating point (every product and addition rounded, |fl x - x| <= eps |x|): a THEOREM - within "
+    "((1+eps)^(n+1) - 1) * sum|q_i w_i| of the exact sum (flDot_error), i.e. 2 (n+1) eps sum|q w| (flDot_error_explicit); IEEE 754 conformance of numpy's arithmetic is trusted"]
